@@ -229,3 +229,37 @@ func verifNthRunes(n int, alphabet string) string {
 	}
 	return string(b)
 }
+
+// verifRestrictedTagsOK: restrictedTagsEqual on the tag lists numbered i and j (three tags each out of "apple",
+// "basic:alice", "basic:bob", "cherry"; the namespace "basic" is reserved) says whether the two lists carry the same
+// set of reserved-namespace tags (as multisets), and leaves both lists as they were.
+func verifRestrictedTagsOK(i, j int) bool {
+	words := []string{"apple", "basic:alice", "basic:bob", "cherry"}
+	mk := func(n int) []string { return []string{words[n%4], words[(n/4)%4], words[(n/16)%4]} }
+	a, b := mk(i), mk(j)
+	a0, b0 := append([]string(nil), a...), append([]string(nil), b...)
+	ns := map[string]bool{"basic": true}
+	got := restrictedTagsEqual(a, b, ns)
+	for k := range a {
+		if a[k] != a0[k] || b[k] != b0[k] {
+			return false
+		}
+	}
+	count := func(l []string) map[string]int {
+		m := map[string]int{}
+		for _, s := range l {
+			if strings.HasPrefix(s, "basic:") {
+				m[s]++
+			}
+		}
+		return m
+	}
+	ca, cb := count(a0), count(b0)
+	want := len(ca) == len(cb)
+	for k, v := range ca {
+		if cb[k] != v {
+			want = false
+		}
+	}
+	return got == want
+}
